@@ -263,6 +263,29 @@ def _build(fmt, rs, A, dt, rdt, kind):
                 fns = (lambda: to_t(obj), lambda m: to_u(obj, m), lambda: to_v(obj))
             _views(ctx, fmt, be, desc, dense, absb, nt, eps, *fns)
             _norm_clause(ctx, fmt, be, desc, obj, dense, absb, nt, eps)
+            if wrapper and be == "core":
+                # history: one core of the wrapper object is replaced (item assignment) by a core with another mode size, e.g. after a
+                # mode product on that core or after slicing it: every view follows the cores the object holds now
+                k = int(np.argmax(shp))
+                newsize = shp[k] + 1 if shp[k] < 4 else shp[k] - 1
+                nc = gen.arr(np.random.RandomState(sum(shp) * 31 + k), [ranks[k], newsize, ranks[k + 1]], dt)
+                cores2 = list(cores)
+                cores2[k] = nc
+                obj2 = W(list(cores))
+                obj2[k] = nc
+                if fmt == "tt":
+                    d2, a2, n2 = ref.tt_dense(cores2)
+                    shp2 = list(shp)
+                    shp2[k] = newsize
+                    d2, a2 = d2.reshape(shp2), a2.reshape(shp2)
+                else:
+                    d2, a2, n2 = ref.tr_dense(cores2)
+                ctx.count("clause/core-replaced")
+                try:
+                    _views(ctx, fmt, be, dict(desc, cls="core-replaced"), d2, a2, n2, eps, obj2.to_tensor, obj2.to_unfolding, obj2.to_vec)
+                except (ValueError, IndexError) as e:
+                    ctx.violation("C03:%s:raises-%s:core-replaced" % (fmt, type(e).__name__), "%s wrapper with core %d replaced by one of mode size %d: a view raised %s: %s" % (
+                        fmt, k, newsize, type(e).__name__, str(e)[:150]), dict(desc, cls="core-replaced"))
         return {"desc": desc, "check": check, "nontrivial": max(ranks) > 1 or sum(s > 1 for s in shp) > 1}
 
     if fmt == "ttm":
